@@ -34,6 +34,8 @@ pub fn run(ctx: &mut Ctx) {
     if !ctx.thorough() {
         for _ in 0..3 { all_sizes.extend_from_slice(&MULTI_BLOCK_SIZES); }
         all_sizes.extend_from_slice(&[256 + 64, 512 + 2, 640, 832 + 30]);
+        all_sizes.extend_from_slice(&LONG_SIZES);
+        all_sizes.extend_from_slice(&LONG_SIZES);
     }
     for sb in all_sizes {
         for _ in 0..cfgs_per_size {
